@@ -32,6 +32,8 @@ pub enum Summ {
     CountSet(usize),
     /// returns its observations verbatim; accepts k-mers seen at least n times
     Record(usize),
+    /// looks at the FIRST observation only and stops reading (a summarizer may do that); accepts everything
+    First,
 }
 
 #[derive(Clone, Debug, Serialize, Deserialize)]
@@ -110,6 +112,20 @@ pub fn reference_grouping(reads: &[Read], k: usize, stranded: bool) -> BTreeMap<
         }
     }
     m
+}
+
+struct FirstOnly {
+    calls: Cell<usize>,
+}
+
+impl KmerSummarizer<u32, (u8, u32)> for FirstOnly {
+    fn summarize<K, F: Iterator<Item = (K, Exts, u32)>>(&self, mut items: F) -> (bool, Exts, (u8, u32)) {
+        self.calls.set(self.calls.get() + 1);
+        match items.next() {
+            Some((_, e, d)) => (true, e, (e.val, d)),
+            None => (false, Exts::empty(), (0, 0)),
+        }
+    }
 }
 
 struct Recorder {
@@ -192,6 +208,13 @@ fn call<K: Kmer, V: Vmer>(c: &Case, seqs: &[(V, Exts, u32)], budget: (usize, usi
             let absent = probe_gets(&t, &table);
             (table, all_kmers, None, absent)
         }
+        Summ::First => {
+            let f = Box::new(FirstOnly { calls: Cell::new(0) });
+            let (t, all) = filter_kmers::<K, V, u32, (u8, u32), FirstOnly>(seqs, &f, c.stranded, c.report_all, budget.0);
+            let (table, all_kmers) = plain(&t, &all);
+            let absent = probe_gets(&t, &table);
+            (table, all_kmers, Some(f.calls.get()), absent)
+        }
         Summ::Record(n) => {
             let rec = Box::new(Recorder {
                 min: *n,
@@ -219,6 +242,7 @@ fn check_against_model(c: &Case, k: usize, o: &Outcome) -> Result<(), Violation>
     let m = reference_grouping(&c.reads, k, c.stranded);
     let min = match &c.summ {
         Summ::Count(n) | Summ::CountSet(n) | Summ::Record(n) => *n,
+        Summ::First => 0,
     };
     // expected table
     let mut idx = 0usize;
@@ -247,7 +271,11 @@ fn check_against_model(c: &Case, k: usize, o: &Outcome) -> Result<(), Violation>
         idx += 1;
         // extension union
         let union: u8 = obs.iter().fold(0, |a, x| a | x.exts);
-        let ok_exts = if *pal {
+        let first_only = matches!(c.summ, Summ::First);
+        let union: u8 = if first_only { obs[0].exts } else { union };
+        let ok_exts = if first_only {
+            row.1 == obs[0].exts || (*pal && row.1 == rc_exts(obs[0].exts))
+        } else if *pal {
             // strand of a palindromic observation is undefined: accept either orientation per observation
             let sym = |e: u8| e | rc_exts(e);
             sym(row.1) == sym(union) && obs.iter().all(|x| (x.exts & row.1) == x.exts || (rc_exts(x.exts) & row.1) == rc_exts(x.exts))
@@ -269,6 +297,15 @@ fn check_against_model(c: &Case, k: usize, o: &Outcome) -> Result<(), Violation>
                 l.sort();
                 l.dedup();
                 format!("{:?}", l)
+            }
+            Summ::First => {
+                let w = format!("{:?}", (obs[0].exts, obs[0].label));
+                let alt = format!("{:?}", (rc_exts(obs[0].exts), obs[0].label));
+                if *pal && row.2 == alt {
+                    alt
+                } else {
+                    w
+                }
             }
             Summ::Record(_) => {
                 if *pal {
@@ -424,13 +461,33 @@ fn run_slices<K: Kmer>(c: &Case, gap: usize, rec: &mut Rec) -> Result<(), Violat
             backing.push(((i + j) % 4) as u8);
         }
         let start = backing.len();
-        for b in &r.seq {
-            backing.push(*b);
+        // every third read is stored reverse-complemented and handed over as an rc VIEW
+        let as_rc_view = (i + gap) % 3 == 1;
+        if as_rc_view {
+            for b in dna::rc(&r.seq) {
+                backing.push(b);
+            }
+        } else {
+            for b in &r.seq {
+                backing.push(*b);
+            }
         }
-        spans.push((start, backing.len()));
+        spans.push((start, backing.len(), as_rc_view));
     }
     backing.push(0);
-    let seqs: Vec<(DnaStringSlice, Exts, u32)> = c.reads.iter().zip(spans.iter()).map(|(r, (a, b))| (backing.slice(*a, *b), Exts::new(r.exts), r.label)).collect();
+    let seqs: Vec<(DnaStringSlice, Exts, u32)> = c
+        .reads
+        .iter()
+        .zip(spans.iter())
+        .map(|(r, (a, b, v))| {
+            use debruijn::Mer;
+            let s = backing.slice(*a, *b);
+            (if *v { s.rc() } else { s }, Exts::new(r.exts), r.label)
+        })
+        .collect();
+    if spans.iter().any(|x| x.2) {
+        rec.count("reach_reads_as_rc_views");
+    }
     rec.count("reach_reads_as_slices");
     run_seqs::<K, DnaStringSlice>(c, &seqs, rec)
 }
@@ -591,10 +648,11 @@ impl Harness for C05 {
                 Summ::Record(1)
             }
         } else {
-            match rng.below(3) {
-                0 => Summ::Count(thr),
-                1 => Summ::CountSet(thr),
-                _ => Summ::Record(thr),
+            match rng.below(7) {
+                0 | 1 => Summ::Count(thr),
+                2 | 3 => Summ::CountSet(thr),
+                4 | 5 => Summ::Record(thr),
+                _ => Summ::First,
             }
         };
         Case {
